@@ -536,3 +536,54 @@ def raise_sites(fn):
   rs = [n for n in ast.walk(fn.node) if isinstance(n, ast.Raise)]
   rs.sort(key=lambda n: (n.lineno, n.col_offset))
   return list(enumerate(rs))
+
+
+# ---------------------------------------------------------------------------
+def check_distinct_pairs(prog, res, fn, rule='V9'):
+  """V9: a constraint that names two dimensions (dominant / weak, dim1 / dim2)
+  is projected by unstacking the kernel over BOTH axes, which needs them to
+  be different.  Every validator loop that unpacks such a pair must reject
+  the degenerate pair (a, a): there has to be a raising test that compares
+  the two names.  Otherwise (0, 0) is accepted and the first projection
+  raises IndexError / ValueError from the unstacking (or silently constrains
+  another pair of axes)."""
+  import ast as _ast
+  res.analysed(fn)
+  n = 0
+  for loop in _ast.walk(fn.node):
+    if not isinstance(loop, _ast.For):
+      continue
+    pair = None
+    # `a, b = constraint` inside the loop, or `for a, b in constraints`
+    if isinstance(loop.target, _ast.Tuple) and len(loop.target.elts) == 2 and \
+        all(isinstance(t, _ast.Name) for t in loop.target.elts):
+      pair = [t.id for t in loop.target.elts]
+    for st in loop.body:
+      lnames = {t.id for t in _ast.walk(loop.target)
+                if isinstance(t, _ast.Name)}
+      if isinstance(st, _ast.Assign) and isinstance(
+          st.targets[0], _ast.Tuple) and len(st.targets[0].elts) == 2 and \
+          dotted(st.value) in lnames and all(
+              isinstance(t, _ast.Name) for t in st.targets[0].elts):
+        pair = [t.id for t in st.targets[0].elts]
+    if not pair or not all('dim' in p for p in pair):
+      continue
+    compared = False
+    for st in _ast.walk(loop):
+      if isinstance(st, _ast.If) and any(isinstance(x, _ast.Raise)
+                                         for x in st.body):
+        for c in _ast.walk(st.test):
+          if isinstance(c, _ast.Compare) and len(c.ops) == 1 and isinstance(
+              c.ops[0], (_ast.Eq, _ast.NotEq)) and {
+                  dotted(c.left), dotted(c.comparators[0])} == set(pair):
+            compared = True
+    n += 1
+    src = norm_text(loop.iter)[:30]
+    res.check(compared, rule, '%s|%s' % (fn.qualname, src), fn.loc(loop),
+              'the pair (%s, %s) is rejected when both are the same '
+              'dimension' % tuple(pair),
+              'no test rejects %s == %s for the constraints in `%s`: the pair '
+              '(d, d) is accepted and the projection, which unstacks the '
+              'kernel over both dimensions, raises IndexError / ValueError '
+              'or constrains another pair of axes' % (pair[0], pair[1], src))
+  return n
